@@ -176,3 +176,76 @@ func lemma_C05_dec_SA_any_order(num, proto, r1, r2, r3 uint8, idD, idE, av uint1
 	e := p.EncryptionAlgorithm[0]
 	verifAssert(e.TransformID == idE && e.AttributePresent && e.AttributeFormat == 1 && e.AttributeType == 14 && e.AttributeValue == av, "C05/SA/encr-transform-and-key-length-recovered")
 }
+
+// ---- Delete with any number of SPIs: a loop invariant instead of an unrolling ----
+//
+// The invariant talks about ONE arbitrary index verifDeleteK, chosen by the lemma before
+// the call (a skolem constant: what holds for an arbitrary index holds for every index),
+// which keeps it quantifier free: after n completed iterations the buffer holds the
+// header and 4*n SPI octets, and SPI number k - if already written - stands at its
+// offset in network byte order.
+var verifDeleteK int
+
+//verif:invariant (*message.Delete).Marshal loop1
+func inv_C03_C05_delete_marshal(d *Delete, deleteData []byte, rangeindex int) bool {
+	if !verifDeleteInvOn {
+		return true
+	}
+	n := rangeindex + 1
+	if n < 0 || n > len(d.SPIs) || len(deleteData) != 4+4*n {
+		return false
+	}
+	if deleteData[0] != d.ProtocolID || deleteData[1] != d.SPISize || deleteData[2] != byte(d.NumberOfSPI>>8) || deleteData[3] != byte(d.NumberOfSPI) {
+		return false
+	}
+	k := verifDeleteK
+	if 0 <= k && k < n {
+		v := d.SPIs[k]
+		return deleteData[4+4*k] == byte(v>>24) && deleteData[5+4*k] == byte(v>>16) && deleteData[6+4*k] == byte(v>>8) && deleteData[7+4*k] == byte(v)
+	}
+	return true
+}
+
+func lemma_C05_Delete_any_count(proto uint8, spis []uint32, k int) {
+	verifAssume(len(spis) >= 1 && len(spis) <= 65535 && 0 <= k && k < len(spis))
+	verifDeleteK, verifDeleteInvOn = k, true
+	v := spis[k]
+	x := &Delete{ProtocolID: proto, SPISize: 4, NumberOfSPI: uint16(len(spis)), SPIs: spis}
+	b, err := x.Marshal()
+	verifAssert(err == nil && len(b) == 4+4*len(spis), "C05/Delete/any-count/length")
+	verifAssert(b[0] == proto && b[1] == 4 && int(b[2])<<8|int(b[3]) == len(spis), "C05/Delete/any-count/header")
+	verifAssert(b[4+4*k] == byte(v>>24) && b[5+4*k] == byte(v>>16) && b[6+4*k] == byte(v>>8) && b[7+4*k] == byte(v), "C05/Delete/any-count/every-spi-at-its-offset-in-network-order")
+}
+
+// the receiving direction, any number of SPIs: after i/4 completed iterations the payload
+// object holds i/4 SPIs and SPI number k - if already decoded - is the big-endian value
+// of the four octets at its offset behind the 4-octet header
+var verifDeleteDK int
+
+// (the invariants are switched on by the lemma that needs them: every other cut of these
+// loops - other lemmas, the computation of callers' frames - sees the trivial invariant)
+var verifDeleteInvOn bool
+
+//verif:invariant (*message.Delete).Unmarshal loop1
+func inv_C03_C05_delete_unmarshal(d *Delete, b []byte, i int) bool {
+	if !verifDeleteInvOn {
+		return true
+	}
+	if i < 0 || i%4 != 0 || i > len(b)-4 || len(d.SPIs) != i/4 {
+		return false
+	}
+	k := verifDeleteDK
+	if 0 <= k && k < i/4 {
+		return d.SPIs[k] == uint32(b[4+4*k])<<24|uint32(b[5+4*k])<<16|uint32(b[6+4*k])<<8|uint32(b[7+4*k])
+	}
+	return true
+}
+
+func lemma_C05_dec_Delete_any_count(b []byte, k int) {
+	verifAssume(len(b) >= 8 && (len(b)-4)%4 == 0 && b[1] == 4 && int(b[2])<<8|int(b[3]) == (len(b)-4)/4 && 0 <= k && k < (len(b)-4)/4)
+	verifDeleteDK, verifDeleteInvOn = k, true
+	y := new(Delete)
+	verifAssert(y.Unmarshal(b) == nil, "C05/Delete/any-count/accepts-reference")
+	verifAssert(y.ProtocolID == b[0] && y.SPISize == 4 && int(y.NumberOfSPI) == (len(b)-4)/4 && len(y.SPIs) == (len(b)-4)/4, "C05/Delete/any-count/header-and-count-recovered")
+	verifAssert(y.SPIs[k] == uint32(b[4+4*k])<<24|uint32(b[5+4*k])<<16|uint32(b[6+4*k])<<8|uint32(b[7+4*k]), "C05/Delete/any-count/every-spi-recovered")
+}
